@@ -15,7 +15,29 @@ package message
 //@   inline
 //@ func newRequest
 //@   inline
+//@ func GraphSyncRequest.Root
+//@   inline
+//@ func GraphSyncRequest.Selector
+//@   inline
+//@ func GraphSyncRequest.Priority
+//@   inline
+//@ func newResponse
+//@   inline
+//@ func GraphSyncResponse.Metadata
+//@   inline
+//@ func GraphSyncLinkMetadata.RawMetadata
+//@   inline
+//@ func NewMessage
+//@   inline
 
+//@ func NewRequest
+//@   lenient
+//@   modifies alloc
+//@   ensures result.id == id && result.requestType == graphsync.RequestTypeNew && result.root == root && result.selector == selector && result.priority == priority
+//@ func NewResponse
+//@   lenient
+//@   modifies alloc
+//@   ensures result.requestID == requestID && result.status == status && result.metadata == md
 //@ func NewCancelRequest
 //@   lenient
 //@   modifies nothing
@@ -57,3 +79,36 @@ package message
 //@   modifies alloc
 //@   ensures result != nil && fresh(result) && result.blkSize == 0 && result.outgoingBlocks != nil && result.requests != nil
 //@   ensures result.completedResponses != nil && result.outgoingResponses != nil && result.extensions != nil
+
+//@ -- ============================ C11: the lists handed to the wire encoder enumerate the message's maps ============================
+//@ -- well-formed message: every entry is filed under its own ID (what the builder and the decoder produce)
+//@ pred wfMsg(g GraphSyncMessage) := (forall k graphsync.RequestID :: k in g.requests ==> g.requests[k].id == k) &&
+//@                                   (forall k graphsync.RequestID :: k in g.responses ==> g.responses[k].requestID == k) &&
+//@                                   (forall k cid.Cid :: k in g.blocks ==> g.blocks[k] != nil && blkCid(g.blocks[k]) == k)
+//@ func GraphSyncMessage.Requests
+//@   requires wfMsg(gsm)
+//@   modifies alloc
+//@   ensures len(result) == len(gsm.requests)
+//@   ensures forall i int :: 0 <= i && i < len(result) ==> result[i].id in gsm.requests && gsm.requests[result[i].id] == result[i]
+//@   ensures forall i int, j int :: 0 <= i && i < j && j < len(result) ==> result[i].id != result[j].id
+//@   loop 1 invariant len(requests) == card(seen1)
+//@   loop 1 invariant forall i int :: 0 <= i && i < len(requests) ==> seen1[requests[i].id] && gsm.requests[requests[i].id] == requests[i]
+//@   loop 1 invariant forall i int, j int :: 0 <= i && i < j && j < len(requests) ==> requests[i].id != requests[j].id
+//@ func GraphSyncMessage.Responses
+//@   requires wfMsg(gsm)
+//@   modifies alloc
+//@   ensures len(result) == len(gsm.responses)
+//@   ensures forall i int :: 0 <= i && i < len(result) ==> result[i].requestID in gsm.responses && gsm.responses[result[i].requestID] == result[i]
+//@   ensures forall i int, j int :: 0 <= i && i < j && j < len(result) ==> result[i].requestID != result[j].requestID
+//@   loop 1 invariant len(responses) == card(seen1)
+//@   loop 1 invariant forall i int :: 0 <= i && i < len(responses) ==> seen1[responses[i].requestID] && gsm.responses[responses[i].requestID] == responses[i]
+//@   loop 1 invariant forall i int, j int :: 0 <= i && i < j && j < len(responses) ==> responses[i].requestID != responses[j].requestID
+//@ func GraphSyncMessage.Blocks
+//@   requires wfMsg(gsm)
+//@   modifies alloc
+//@   ensures len(result) == len(gsm.blocks)
+//@   ensures forall i int :: 0 <= i && i < len(result) ==> result[i] != nil && blkCid(result[i]) in gsm.blocks && gsm.blocks[blkCid(result[i])] == result[i]
+//@   ensures forall i int, j int :: 0 <= i && i < j && j < len(result) ==> blkCid(result[i]) != blkCid(result[j])
+//@   loop 1 invariant len(bs) == card(seen1)
+//@   loop 1 invariant forall i int :: 0 <= i && i < len(bs) ==> bs[i] != nil && seen1[blkCid(bs[i])] && gsm.blocks[blkCid(bs[i])] == bs[i]
+//@   loop 1 invariant forall i int, j int :: 0 <= i && i < j && j < len(bs) ==> blkCid(bs[i]) != blkCid(bs[j])
